@@ -238,11 +238,16 @@ def impl(c):
                             bad[i] += 1
                 except Exception as e:  # noqa: BLE001
                     errs[i] = f"{type(e).__name__}: {e}"
+            import sys
+            old_si = sys.getswitchinterval()
             try:
+                # provoke many more thread switches than CPython's default 5 ms interval gives
+                sys.setswitchinterval(1e-5 if c["seed"] % 2 else 1e-6)
                 ths = [threading.Thread(target=worker, args=(i,)) for i in range(n)]
                 for t in ths: t.start()
                 for t in ths: t.join()
             finally:
+                sys.setswitchinterval(old_si)
                 bus.close()
             return [bad, [S(e) if e else None for e in errs]]
         return guarded(run)
